@@ -185,3 +185,16 @@ Definition rcase_ok (c : rcase) : bool :=
   olist_eqb oz_eqb
     (constflow_results Z.mul (fun l => existsb (Z.eqb l) (r_supplied c)) (r_rows c) (map (fun _ => None) (r_rows c)))
     (r_res c).
+
+(* ------------------------------------------------------------------ _sum_by_group itself (numpy / numba / sparse fallback) at Z *)
+Record gcase := mkG {
+  g_rows : list (Z * Z);          (* (label, value) in the given (unsorted, repeated, sparse) order *)
+  g_out : list (Z * Z)            (* real output: unique labels with their sums *)
+}.
+Fixpoint zzlist_eqb (a b : list (Z * Z)) : bool :=
+  match a, b with
+  | [], [] => true
+  | (x, u) :: a', (y, v) :: b' => Z.eqb x y && Z.eqb u v && zzlist_eqb a' b'
+  | _, _ => false
+  end.
+Definition gcase_ok (c : gcase) : bool := zzlist_eqb (sum_by_group Z.add (g_rows c)) (g_out c).
